@@ -79,13 +79,34 @@ class Def:
 _CACHE = {}
 
 
-def definitions(delegates=True):
+_CONVENTIONS = {}
+
+
+def convention(name):
+    """one instance per naming convention (contexts are cached by it)"""
+    from yaql.language import conventions
+    if name not in _CONVENTIONS:
+        _CONVENTIONS[name] = {
+            'python': conventions.PythonConvention,
+            'camel': conventions.CamelCaseConvention}[name]()
+    return _CONVENTIONS[name]
+
+
+def base_context(delegates=True, conv=None):
+    if conv is None:
+        return common.std_context(delegates=delegates)
+    return common.std_context(delegates=delegates,
+                              convention=convention(conv))
+
+
+def definitions(delegates=True, conv=None):
     """All definitions of yaql.create_context(delegates=...), nearest layer
-    first, in a deterministic order."""
-    key = delegates
+    first, in a deterministic order.  conv: None (the default context) or
+    the name of a naming convention the context is created with."""
+    key = (delegates, conv) if conv else delegates
     if key in _CACHE:
         return _CACHE[key]
-    ctx = common.std_context(delegates=delegates)
+    ctx = base_context(delegates, conv)
     out = []
     layer = 0
     p = ctx
@@ -108,12 +129,12 @@ def definitions(delegates=True):
     return out
 
 
-def clone_context(defs=None, delegates=True, on_enter=None):
+def clone_context(defs=None, delegates=True, on_enter=None, conv=None):
     """Child of the standard context holding a clone of every definition
     under its clone_name.  on_enter(def, args, kwargs) is called when a
     clone's payload is entered."""
-    defs = defs if defs is not None else definitions(delegates)
-    ctx = common.std_context(delegates=delegates).create_child_context()
+    defs = defs if defs is not None else definitions(delegates, conv)
+    ctx = base_context(delegates, conv).create_child_context()
     for d in defs:
         fd = d.fd.clone()
         fd.name = d.clone_name
